@@ -65,6 +65,13 @@ let guid_of_string s =
 let string_of_guid g =
   Printf.sprintf "%s:%s:%s:%s" (string_of_n g.d1) (string_of_n g.d2) (string_of_n g.d3) (hex_of_bytes g.d4)
 
+let time_of_string s =
+  match nlist_of_string s with
+  | [y; mo; d; h; mi; se; p1; ns; tz; dl; p2] ->
+      { t_year = y; t_month = mo; t_day = d; t_hour = h; t_minute = mi; t_second = se; t_pad1 = p1;
+        t_nanosecond = ns; t_timezone = tz; t_daylight = dl; t_pad2 = p2 }
+  | _ -> failwith ("bad time " ^ s)
+
 let obs_str_of_string s =
   if s = "E" then OErr else if s = "P" then OPanic else if s = "X" then OExit
   else if String.length s >= 2 && String.sub s 0 2 = "S:" then
@@ -98,6 +105,32 @@ let run (op : string) (a : string list) : string list =
   | "utf16_marshal", [s; impl] -> [verdict (check_marshal (nlist_of_string s) (bytes_of_hex impl))]
   | "utf16_parse", [bs; impl] -> [verdict (check_parse_utf16 (bytes_of_hex bs) (obs_str_of_string impl))]
   | "efistring", [bs; impl] -> [verdict (check_efistring (bytes_of_hex bs) (obs_str_of_string impl))]
+  (* C10 *)
+  | "auth2_read", bs :: cls :: rest ->
+      let bs = bytes_of_hex bs in
+      let impl = (match cls, rest with
+        | "ok", [tm; len; rev; typ; g; data; rem; marshal] ->
+            OA_ok ({ a_time = time_of_string tm;
+                     a_info = { wg_length = n_of_string len; wg_revision = n_of_string rev;
+                                wg_type = n_of_string typ; wg_guid = guid_of_string g;
+                                wg_data = bytes_of_hex data } },
+                   n_of_string rem, bytes_of_hex marshal)
+        | _ -> OA_other) in
+      [verdict (check_read_auth2 bs impl); s01 (auth2_decodes bs)]
+  | "wincert_read", bs :: cls :: rest ->
+      let bs = bytes_of_hex bs in
+      let impl = (match cls, rest with
+        | "ok", [len; rev; typ; cert; rem; written] ->
+            OW_ok ({ wc_length = n_of_string len; wc_revision = n_of_string rev; wc_type = n_of_string typ;
+                     wc_cert = bytes_of_hex cert }, n_of_string rem, bytes_of_hex written)
+        | _ -> OW_other) in
+      [verdict (check_read_wincert bs impl); s01 (wincert_decodes bs)]
+  | "auth2_write", [tm; len; rev; typ; g; data; impl] ->
+      let a = { a_time = time_of_string tm;
+                a_info = { wg_length = n_of_string len; wg_revision = n_of_string rev;
+                           wg_type = n_of_string typ; wg_guid = guid_of_string g;
+                           wg_data = bytes_of_hex data } } in
+      [verdict (check_write_auth2 a (bytes_of_hex impl))]
   | _ -> ["skip"; "unknown op " ^ op]
 
 let () =
